@@ -139,8 +139,16 @@ class LazyGen:
 
     def __iter__(self):
         if self._it is None:
-            self._it = self._produce()
+            self._it = self._guarded()
         return self._it
+
+    def _guarded(self):
+        # an exception of the interpreted generator body surfaces where the generator is consumed; it is the code's
+        # exception (not a failure of whoever iterates), so it travels as _Raise
+        try:
+            yield from self._produce()
+        except (ArithmeticError, TypeError, ValueError, KeyError, IndexError, AttributeError) as err:
+            raise _Raise(type(err).__name__)
 
     def __next__(self):
         return next(iter(self))
